@@ -91,7 +91,7 @@ func runCLI(c *ctx) {
 		fmt.Fprintln(os.Stderr, "ATLAS_BIN not found:", clirun.Bin())
 		os.Exit(2)
 	}
-	n := 150
+	n := 60
 	if c.thorough {
 		n = 1500
 	}
